@@ -40,6 +40,9 @@ def applyPlan (dir : Dir) (B : Nat) (src : DataSess) (cb : Option Bool) (st : St
       { st with data := st.data.map (·.take d.hdrLen), index := st.index.map (·.take d.ihdrLen) }
       { d with dataLen := 0, entries := [], lastFull := none } rest
   | .skip n :: _ => (dir.setCache B st, .ok { B := B, d := d, skip := n })
+  | .push _ _ :: rest => applyPlan dir B src cb st d rest          -- not an action of the catch-up
+  | .outTs _ :: rest => applyPlan dir B src cb st d rest
+  | .outItem _ :: rest => applyPlan dir B src cb st d rest
   | .replay pos :: _ =>
     let dir' := dir.setCache B st
     let r := feedCache (dir'.main.region src.hdrLen) src cb st { B := B, d := d } pos.start pos.stop pos.firstFull
